@@ -355,8 +355,11 @@ func (r *blockReader) Value(seg Segment) []byte {
 		s := r.segments.At(line)
 		if i < 0 {
 			i = s.Start
+			ret = s.ConcatPadding(ret)
+		} else {
+			// the first line: the padding is the given segment's own
+			ret = seg.ConcatPadding(ret)
 		}
-		ret = s.ConcatPadding(ret)
 		for ; i < seg.Stop && i < s.Stop; i++ {
 			ret = append(ret, r.source[i])
 		}
